@@ -947,3 +947,67 @@ func unitC03marker(e common.Env, p *common.Part) {
 		}
 	}
 }
+
+// unitC04conc: fault-free sessions on a transport that dispatches concurrently (one dispatcher goroutine per link, as the bundled
+// TLS transport has one reader per peer): the broadcasts of all parties are large and of different lengths and are transmitted at
+// the same moment, so every node handles two or more payload-carrying messages at overlapping times.
+func unitC04conc(e common.Env, p *common.Part) {
+	p.Rule = "all-honest scripted key generation and signing sessions of real Loud (barrier synchroniser) and Silent schemes on the simulated network in CONCURRENT mode (one dispatcher goroutine per link), N = 3..5, one or two rounds of broadcasts with point-to-point traffic in every second case; payloads of 64 KiB..1.5 MiB whose length differs per sender and round, all parties transmit at once; oracle: every call returns nil and every message was handed over exactly once everywhere; distinct key = (N, mode, operation, index); non-trivial always"
+	p.Assumptions = append(p.Assumptions, "a session that misses its 8 s watchdog is judged only if the network had been empty and the event log silent for >= 2 s when the deadline fired; any other deadline is counted as undecided")
+	n := e.Pick(40, 1500)
+	for i := 0; i < n; i++ {
+		if !e.Mine(i) || p.ViolationCount() >= 3 {
+			continue
+		}
+		N := 3 + i%3
+		var ids []uint16
+		for k := 1; k <= N; k++ {
+			ids = append(ids, uint16(k))
+		}
+		silent := (i/3)%2 == 1
+		sign := (i/6)%2 == 1
+		key := fmt.Sprintf("N=%d silent=%v sign=%v #%d", N, silent, sign, i)
+		p.Begin(key)
+		cc := cluster.New(cluster.Config{Map: identityMap(ids...), Barrier: !silent, Silent: silent, Threshold: N - 1})
+		cc.Net.StartConcurrent()
+		c := &rcluster{Cluster: cc}
+		base := 1 << (16 + i%4)
+		script := backend.Script{Rounds: []uint8{1, 2}[:1+i%2], Bcast: true, P2P: (i/2)%2 == 1, SenderFiller: func(snd uint16, r uint8, d uint16) int {
+			if d != 0xffff {
+				return 100 + int(d%13)
+			}
+			return base*(1+int(snd)%3) + 64*((i*7+int(r)*3+int(snd)*11)%50)
+		}}
+		timeout := 8 * time.Second
+		sc := sessCfg{Callers: ids, Sign: sign, Topic: fmt.Sprintf("c04conc-%d", i), Digest: []byte("0123456789abcdef0123456789abcdef"), Script: script, Timeout: timeout}
+		if sign {
+			for _, u := range ids {
+				c.Schemes[u].SetStoredData([]byte("share-of-x"))
+			}
+		}
+		res := c.run(sc)
+		sig, what := "", ""
+		if u, err := allNil(res, ids); err != nil {
+			if res.Elapsed >= timeout && res.QuietAtFirstReturn < 2*time.Second {
+				p.Count("undecided_deadlines", 1)
+			} else {
+				sig, what = "session-failed", fmt.Sprintf("node %d: %v", u, err)
+				if res.Elapsed >= timeout {
+					what += fmt.Sprintf(" (the network had been empty and silent for %v when the deadline fired)", res.QuietAtFirstReturn.Round(100*time.Millisecond))
+				}
+			}
+		} else {
+			sig, what = sessionTotality(c, sc, res)
+		}
+		if len(res.Panics) > 0 {
+			sig, what = "panic", res.Panics[0]
+		}
+		c.Stop()
+		p.Case(key, true)
+		p.Count("sessions", 1)
+		p.Count("dispatcher_goroutines", int64(cc.Net.LinkCount()))
+		if sig != "" {
+			p.Violate("totality/concurrent-dispatch/"+sig, key+": "+what, map[string]interface{}{"n": N, "silent": silent, "sign": sign, "index": i})
+		}
+	}
+}
